@@ -129,6 +129,36 @@ func genC02(g *Gen) {
 		p.Proxy.BufCap = 65536 // see genC17: small read buffers make MiB messages quadratic
 		p.Sched.MaxSteps = 3000
 	}
+	if p.Variant == "aligned" {
+		// requests and replies that arrive split over several reads, with piece lengths related to the lengths of earlier
+		// messages on the same connection (see alignedChunks / Driver.alignedAmount); repeated message lengths on purpose
+		g.cleanKernel()
+		p.Proxy.BufCap = []int{4096, 65536}[g.R.Intn(2)]
+		p.Proxy.ServerConns = 1
+		p.Proxy.DisableSlave = true
+		p.Sched.AlignedRelease = true
+		p.Sched.MaxSteps = 6000
+		lens := []int{g.R.Range(1, 40), g.R.Range(1, 40), g.R.Range(41, 300)}
+		nc := g.R.Range(1, 2)
+		for ci := 0; ci < nc; ci++ {
+			cp := ClientPlan{Addr: clientAddr(ci), Mode: "pipeline", CloseAfterSent: -1, CloseAfterReplies: -1, StartStep: g.R.Intn(6)}
+			slot := g.R.Intn(16384) // everything of this client on one node: many messages per backend connection
+			for ri, n := 0, g.R.Range(6, 30); ri < n; ri++ {
+				tok := Tok(ci, ri)
+				l := lens[g.R.Intn(len(lens))] + g.R.Intn(2)
+				if g.R.Pct(50) {
+					cp.Reqs = append(cp.Reqs, g.Single(tok, "get", Key(tok, 0, slot, fmt.Sprintf("~S5~L%d", l))))
+				} else {
+					cp.Reqs = append(cp.Reqs, g.Single(tok, "set", Key(tok, 0, slot, "~S0"), strings.Repeat("v", l)))
+				}
+			}
+			if g.R.Pct(70) {
+				g.alignedChunks(&cp)
+			}
+			p.Clients = append(p.Clients, cp)
+		}
+		return
+	}
 	cmds := LoadDocCommands().SingleKeyCmds()
 	nc := g.R.Range(1, 3)
 	for ci := 0; ci < nc; ci++ {
@@ -283,7 +313,11 @@ func genC04(g *Gen) {
 				var key string
 				switch g.R.Intn(3) {
 				case 0:
-					key = Key(tok, 0, g.R.Intn(16384), "~S5")
+					slot := g.R.Intn(16384)
+					if g.R.Pct(50) {
+						slot = g.boundarySlot(&t)
+					}
+					key = Key(tok, 0, slot, "~S5")
 				case 1:
 					key = fmt.Sprintf(g.R.Pick(braceForms), tok+"k0~S5")
 				default:
@@ -300,6 +334,28 @@ func genC04(g *Gen) {
 		}
 		p.Clients = append(p.Clients, cp)
 	}
+}
+
+// boundarySlot: first / last slot of a random range of a random master, its outer neighbours, or the ends of the slot space.
+func (g *Gen) boundarySlot(t *Topology) int {
+	switch g.R.Intn(8) {
+	case 0:
+		return 0
+	case 1:
+		return 16383
+	}
+	for try := 0; try < 20; try++ {
+		n := &t.Nodes[g.R.Intn(len(t.Nodes))]
+		if len(n.Slots) == 0 {
+			continue
+		}
+		r := n.Slots[g.R.Intn(len(n.Slots))]
+		s := []int{r[0], r[1], r[0] - 1, r[1] + 1}[g.R.Intn(4)]
+		if s >= 0 && s < 16384 {
+			return s
+		}
+	}
+	return g.R.Intn(16384)
 }
 
 func isScanOrScript(name string) bool {
@@ -384,7 +440,64 @@ func init() {
 	register(&Profile{Name: "C07", Prop: "C07", Gen: genC07, Check: checkC07})
 }
 
+// digitSplit: a multi-key request whose per-slot key counts, key lengths and value lengths sit on the decimal-digit
+// boundaries of the RESP encoding (9/10, 99/100, 999/1000): array headers and bulk length lines change their width there.
+func (g *Gen) digitSplit(tok string, maxPerSlot int) ReqPlan {
+	cmd := g.R.Pick([]string{"mget", "del", "mset"})
+	counts := []int{1, 2, 8, 9, 10, 11, 98, 99, 100, 101}
+	if maxPerSlot >= 1000 {
+		counts = append(counts, 998, 999, 1000, 1001)
+	}
+	nslots := g.R.Range(2, 4)
+	type kv struct{ k, v string }
+	var all []kv
+	idx := 0
+	for si := 0; si < nslots; si++ {
+		slot := g.R.Intn(16384)
+		c := counts[g.R.Intn(len(counts))]
+		if cmd == "mset" && g.R.Pct(50) {
+			c = []int{4, 5, 49, 50, 499, 500}[g.R.Intn(6)] // 2c+1 arguments: 9/11, 99/101, 999/1001
+			if c > maxPerSlot {
+				c = 5
+			}
+		}
+		for j := 0; j < c; j++ {
+			k := Key(tok, idx, slot, "")
+			if g.R.Pct(30) {
+				// pad the key to a length on a digit boundary
+				want := []int{9, 10, 99, 100}[g.R.Intn(4)]
+				for len(k) < want {
+					k += "p"
+				}
+			}
+			v := fmt.Sprintf("v%d", idx)
+			if g.R.Pct(30) {
+				v = strings.Repeat("w", []int{0, 9, 10, 99, 100, 999, 1000}[g.R.Intn(7)])
+			}
+			all = append(all, kv{k, v})
+			idx++
+		}
+	}
+	// interleave the slots
+	for i := len(all) - 1; i > 0; i-- {
+		j := g.R.Intn(i + 1)
+		all[i], all[j] = all[j], all[i]
+	}
+	var keys, vals []string
+	for _, e := range all {
+		keys = append(keys, e.k)
+		vals = append(vals, e.v)
+	}
+	if cmd != "mset" {
+		vals = nil
+	}
+	return g.Split(tok, cmd, keys, vals)
+}
+
 func (g *Gen) bigSplit(tok string, maxKeys int) ReqPlan {
+	if maxKeys >= 30 && g.R.Pct(25) {
+		return g.digitSplit(tok, maxKeys)
+	}
 	cmd := g.R.Pick([]string{"mget", "del", "mset"})
 	n := g.R.Range(1, maxKeys)
 	nslots := g.R.Range(1, min(n, 12))
@@ -440,10 +553,38 @@ func genC06(g *Gen) {
 		}
 		p.Clients = append(p.Clients, cp)
 	}
+	if p.Variant != "huge" && g.R.Pct(20) {
+		// a small request size limit: the multi-key requests above it are rejected as a whole (nothing of them may reach a
+		// backend, neither at once nor glued to a later request that reuses the pooled request object)
+		p.Proxy.MsgMax = []int{300, 1000, 4000}[g.R.Intn(3)]
+		for ci := range p.Clients {
+			for ri := range p.Clients[ci].Reqs {
+				if rq := &p.Clients[ci].Reqs[ri]; len(rq.Raw) > p.Proxy.MsgMax {
+					rq.Class, rq.Expect = "reject", []byte(RReqTooLarge)
+				}
+			}
+		}
+	}
 }
 
 func checkC06(d *Driver, res *Result) {
 	multi := 0
+	rejected := 0
+	for _, c := range d.Clients {
+		for i := range c.Plan.Reqs {
+			rq := &c.Plan.Reqs[i]
+			if rq.Class != "reject" {
+				continue
+			}
+			rejected++
+			if recs := d.recsFor(rq.Tok); len(recs) > 0 {
+				d.violate("C06", "rejected-request-forwarded", map[string]string{"cmd": rq.Cmd}, "client %d request %d (%s, %d bytes, limit %d) was rejected as too large, yet %s received %q carrying its keys",
+					c.Idx, i, rq.Cmd, len(rq.Raw), d.P.Proxy.MsgMax, recs[0].Node, clip(recs[0].Raw, 100))
+				return
+			}
+		}
+	}
+	d.Counters["c06_rejected_oversized"] = rejected
 	for _, c := range d.Clients {
 		for i := range c.Plan.Reqs {
 			rq := &c.Plan.Reqs[i]
@@ -455,6 +596,10 @@ func checkC06(d *Driver, res *Result) {
 			for _, r := range recs {
 				if r.Name != rq.Cmd {
 					d.violate("C06", "fragment-kind", map[string]string{"cmd": rq.Cmd}, "client %d request %d (%s): fragment at %s is %q", c.Idx, i, rq.Cmd, r.Node, clip(r.Raw, 80))
+					return
+				}
+				if err := StrictCommand(r.Raw); err != nil {
+					d.violate("C06", "fragment-malformed", map[string]string{"cmd": rq.Cmd, "how": "encoding"}, "client %d request %d: fragment at %s is not a well-formed RESP command (%v): %q", c.Idx, i, r.Node, err, clip(r.Raw[max(0, len(r.Raw)-60):], 60))
 					return
 				}
 				ks := keysOf(r.Name, r.Args)
@@ -631,58 +776,7 @@ func genC08(g *Gen) {
 		// read of its own.
 		p.Proxy.BufCap = []int{257, 4096, 65536, 65536}[g.R.Intn(4)]
 		p.Kernel.ShortReadPct = 0
-		cp.PollAfterSend = true
-		var bounds []int
-		off := 0
-		for _, r := range cp.Reqs {
-			off += len(r.Raw)
-			bounds = append(bounds, off)
-		}
-		var S []int
-		for i := g.R.Range(1, 3); i > 0; i-- {
-			S = append(S, g.R.Range(1, 24))
-		}
-		cuts := map[int]bool{}
-		for j, b := range bounds {
-			start := 0
-			if j > 0 {
-				start = bounds[j-1]
-			}
-			if g.R.Pct(50) {
-				cuts[b] = true
-			}
-			for _, sd := range S {
-				if g.R.Pct(30) {
-					cuts[b-sd] = true
-				}
-				if g.R.Pct(30) {
-					cuts[b+sd] = true
-				}
-			}
-			if j > 0 && g.R.Pct(40) {
-				i := g.R.Intn(j)
-				li := len(cp.Reqs[i].Raw)
-				if g.R.Pct(30) && i > 0 {
-					li += len(cp.Reqs[i-1].Raw) // two earlier requests joined
-				}
-				if start+li < b {
-					cuts[start+li] = true
-				}
-			}
-		}
-		var cs []int
-		for c := range cuts {
-			if c > 0 && c < total {
-				cs = append(cs, c)
-			}
-		}
-		sort.Ints(cs)
-		prev := 0
-		for _, c := range cs {
-			cp.Chunks = append(cp.Chunks, c-prev)
-			prev = c
-		}
-		cp.Chunks = append(cp.Chunks, total-prev)
+		g.alignedChunks(&cp)
 	case cutPos >= 0:
 		a := cutPos % (total - 1)
 		cp.Chunks = []int{a + 1}
@@ -705,6 +799,70 @@ func genC08(g *Gen) {
 	}
 	p.Clients = append(p.Clients, cp)
 	p.Sched.MaxSteps = 12000
+}
+
+
+// alignedChunks cuts the client's stream at points related to the request boundaries and to each other (see the C08
+// "aligned" variant) and makes every chunk a read of its own.
+func (g *Gen) alignedChunks(cpp *ClientPlan) {
+	cp := *cpp
+	total := 0
+	for _, r := range cp.Reqs {
+		total += len(r.Raw)
+	}
+	cp.PollAfterSend = true
+	var bounds []int
+	off := 0
+	for _, r := range cp.Reqs {
+		off += len(r.Raw)
+		bounds = append(bounds, off)
+	}
+	var S []int
+	for i := g.R.Range(1, 3); i > 0; i-- {
+		S = append(S, g.R.Range(1, 24))
+	}
+	cuts := map[int]bool{}
+	for j, b := range bounds {
+		start := 0
+		if j > 0 {
+			start = bounds[j-1]
+		}
+		if g.R.Pct(50) {
+			cuts[b] = true
+		}
+		for _, sd := range S {
+			if g.R.Pct(30) {
+				cuts[b-sd] = true
+			}
+			if g.R.Pct(30) {
+				cuts[b+sd] = true
+			}
+		}
+		if j > 0 && g.R.Pct(40) {
+			i := g.R.Intn(j)
+			li := len(cp.Reqs[i].Raw)
+			if g.R.Pct(30) && i > 0 {
+				li += len(cp.Reqs[i-1].Raw) // two earlier requests joined
+			}
+			if start+li < b {
+				cuts[start+li] = true
+			}
+		}
+	}
+	var cs []int
+	for c := range cuts {
+		if c > 0 && c < total {
+			cs = append(cs, c)
+		}
+	}
+	sort.Ints(cs)
+	prev := 0
+	for _, c := range cs {
+		cp.Chunks = append(cp.Chunks, c-prev)
+		prev = c
+	}
+	cp.Chunks = append(cp.Chunks, total-prev)
+	*cpp = cp
 }
 
 func checkC08(d *Driver, res *Result) {
